@@ -197,7 +197,7 @@ def flip_bool_field(evkind, field):
 
 
 def model_check(chk, spec, cfg=None, workers=8, timeout=1500, need_actions=None, constants=None, xmx="8g",
-                dump_out=None, tag=None):
+                dump_out=None, tag=None, coverage=True, min_states=0):
     """Leg M. constants: dict to substitute into a cfg template (writes a derived cfg)."""
     use_cfg = cfg
     if constants is not None:
@@ -211,7 +211,7 @@ def model_check(chk, spec, cfg=None, workers=8, timeout=1500, need_actions=None,
         with open(os.path.join(os.path.dirname(base), use_cfg), "w") as f:
             f.write(txt)
     try:
-        res = vlib.tlc(spec, cfg=use_cfg, workers=workers, timeout=timeout, coverage=True, xmx=xmx, dump_out=dump_out,
+        res = vlib.tlc(spec, cfg=use_cfg, workers=workers, timeout=timeout, coverage=coverage, xmx=xmx, dump_out=dump_out,
                        tag=tag)
     finally:
         if constants is not None:
@@ -224,6 +224,8 @@ def model_check(chk, spec, cfg=None, workers=8, timeout=1500, need_actions=None,
         raise ToolError("model %s violates %s at design level:\n%s" % (spec, res.invariant_violated, vlib.tlc_fail_text(res, 80)))
     if not res.ok:
         raise ToolError("TLC failed on %s:\n%s" % (spec, vlib.tlc_fail_text(res)))
+    if res.distinct < min_states:
+        raise ToolError("vacuous model run: only %d distinct states in %s (expected >= %d)" % (res.distinct, spec, min_states))
     for a in need_actions or []:
         hit = [v for k, v in res.coverage.items() if k.endswith("!" + a)]
         if not hit or hit[0][1] == 0:
